@@ -201,12 +201,19 @@ func checkC11(c *Check) {
 			okH := false
 			why := "handlers variable not found"
 			if cell != nil {
+				var leaves []ssa.Value
 				for _, st := range cellStores(cell, 0) {
-					if vParam(rt, hp)(st.Val) {
+					phiLeaves(st.Val, func(l ssa.Value) { leaves = append(leaves, l) })
+				}
+				for _, lv := range leaves {
+					if vParam(rt, hp)(lv) {
 						continue
 					}
-					why = "unexpected store " + vstr(st.Val)
-					a := asCall(st.Val)
+					if u, isU := lv.(*ssa.UnOp); isU && u.Op == token.MUL && u.X == ssa.Value(cell) {
+						continue // unchanged
+					}
+					why = "unexpected store " + vstr(lv)
+					a := asCall(lv)
 					if a == nil || callName(&a.Call) != "builtin.append" || cellOf(a.Call.Args[1]) != cell {
 						continue
 					}
@@ -499,7 +506,7 @@ func checkC11(c *Check) {
 			// passes routePath and fresh concatenation
 			a := reg.(ssa.CallInstruction).Common().Args
 			c.Cond(vField(vParam(m, 0), "routePath")(a[0]), key+":path", p.Pos(reg.Pos()), "registers the combo's own path", "ComboRoute registers a different path")
-			okCat := false
+			okCat := concatByCopy(m, a[1], vField(vParam(m, 0), "handlers"), vParam(m, 3), reg)
 			if a2 := asCall(a[1]); a2 != nil && callName(&a2.Call) == "builtin.append" && vParam(m, 3)(a2.Call.Args[1]) {
 				if a1 := asCall(a2.Call.Args[0]); a1 != nil && callName(&a1.Call) == "builtin.append" && vField(vParam(m, 0), "handlers")(a1.Call.Args[1]) && isFresh(a1.Call.Args[0]) {
 					okCat = true
@@ -523,4 +530,39 @@ func mustFollowOrPrecede(fn *ssa.Function, a, b ssa.Instruction) (bool, string) 
 		return true, ""
 	}
 	return mustFollow(fn, a, isInstr(b))
+}
+
+// concatByCopy: v = make([]T, len(A)+len(B)); copy(v, A); copy(v[len(A):], B), both copies on
+// every path to `before`, and nothing else stored into v.
+func concatByCopy(fn *ssa.Function, v ssa.Value, A, B VM, before ssa.Instruction) bool {
+	ms, ok := strip(v).(*ssa.MakeSlice)
+	if !ok || !linSum(0, vLen(A), vLen(B))(linOf(ms.Len)) {
+		return false
+	}
+	var c1, c2 ssa.Instruction
+	other := false
+	for _, r := range referrers(ms) {
+		switch x := r.(type) {
+		case ssa.CallInstruction:
+			if callName(x.Common()) == "builtin.copy" && strip(x.Common().Args[0]) == ssa.Value(ms) && A(x.Common().Args[1]) {
+				c1 = x
+			}
+		case *ssa.Slice:
+			for _, r2 := range referrers(x) {
+				if ci, isC := r2.(ssa.CallInstruction); isC && callName(ci.Common()) == "builtin.copy" && strip(ci.Common().Args[0]) == ssa.Value(x) && B(ci.Common().Args[1]) {
+					if x.High == nil && x.Low != nil && linSum(0, vLen(A))(linOf(x.Low)) {
+						c2 = ci
+					}
+				}
+			}
+		case *ssa.IndexAddr:
+			other = true
+		}
+	}
+	if c1 == nil || c2 == nil || other {
+		return false
+	}
+	ok1, _ := mustPrecede(fn, isInstr(c1), before)
+	ok2, _ := mustPrecede(fn, isInstr(c2), before)
+	return ok1 && ok2
 }
